@@ -436,6 +436,8 @@ func Run(tier string) int {
 		"a walk fetches at most 65536 cross-referenced objects, reads at most 1 MiB from each decoded stream and decodes at most 4096 pages (it keeps iterating over the page tree and the name tree to their end without a cap of its own, so that a walker that yields more than the file contains shows up as time/allocation)",
 		"crafted files deviate from a valid document only in the crafted structure; a DAG of n <= 24 nodes has < 2^25 paths, enough for an exponential walker to exceed the allocation allowance (from n ~ 16) or the 20 s watchdog, and small enough that a worker under ulimit -v ends it without harming the machine",
 		"errors returned by the library are never judged",
+		"crafted cross-reference files are laid out so that every section offset has four digits; hostile /Prev and /XRefStm values are written over the valid ones without moving a byte (absent = the key renamed), integer replacements are compensated in a /Pad string of the same dictionary; the integers of the cross-reference stream object a hybrid section points to are not mutated (no padding there)",
+		"junk before the header is the text 'junk before the header' repeated; the header is searched for in the first 1024 bytes, so 1000 is close to the largest prefix that still opens",
 	)
 
 	all, err := BuildSeeds()
@@ -590,6 +592,12 @@ func selfTest(t *table) string {
 		}
 	}
 	if msg := craftSelfTest(); msg != "" {
+		return msg
+	}
+	if msg := xrefSelfTest(t); msg != "" {
+		return msg
+	}
+	if msg := lenWireSelfTest(); msg != "" {
 		return msg
 	}
 	for _, idx := range []int{1, t.total / 3, t.total / 2, t.total - 1} {
